@@ -126,6 +126,17 @@ func (r *prng) rng(lo, hi int) int { // inclusive
 func (r *prng) f() float64       { return float64(r.u64()>>11) / float64(1<<53) }
 func (r *prng) chance(p float64) bool { return r.f() < p }
 func (r *prng) pick(n int) int   { return r.intn(n) }
+func (r *prng) perm(n int) []int {
+	p := make([]int, n)
+	for i := range p {
+		p[i] = i
+	}
+	for i := n - 1; i > 0; i-- {
+		j := r.intn(i + 1)
+		p[i], p[j] = p[j], p[i]
+	}
+	return p
+}
 func (r *prng) bytes(n int) []byte {
 	b := make([]byte, n)
 	for i := 0; i < n; i += 8 {
